@@ -46,9 +46,20 @@ def main(argv=None):
     s.add_argument("--jobs", type=int, default=16)
     s.add_argument("-v", action="store_true")
     sub.add_parser("pin-names")
+    mu = sub.add_parser("mutate")
+    mu.add_argument("--funcs", default="")
+    mu.add_argument("--jobs", type=int, default=16)
+    mu.add_argument("--out", default="")
     args = ap.parse_args(argv)
     seed = int(os.environ.get("VERIF_SEED", "0") or 0)
 
+    if args.cmd == "mutate":
+        from .mutate import run_mutation
+
+        summary, surv, killed = run_mutation([x for x in args.funcs.split(",") if x] or None, args.jobs, args.out or None)
+        for r in surv:
+            print(f"SURVIVED {r['func']} L{r['line']} {r['desc']}")
+        return 0
     if args.cmd == "pin-names":
         os.environ["VERIF_NO_CANON"] = "1"
         from .loader import Tree
